@@ -74,6 +74,7 @@ class World:
         self.loop_errors = []
         self.cmds = []
         self.pos = 0
+        self.armed = []         # [(point pattern, op, remaining uses)]
         self.drift = None
         self.skipped = 0
         pools = cfg["pools"] if "pools" in cfg else [cfg]
@@ -115,6 +116,9 @@ class World:
                 self.skipped += 1
                 pr = self.pools[cmd["op"].get("p", 0)]
                 pr.ev("skip", what="in:" + cmd.get("pt", "?"))
+            elif c == "arm":
+                # arm an operation at a user-code point: "ecb:3" (exact) or "ecb:*" (next point of that kind)
+                self.armed.append([cmd["pt"], cmd["op"], cmd.get("times", 1)])
             elif c == "idle":
                 self.run_idle()
             elif c == "drain":
@@ -141,6 +145,10 @@ class World:
 
     def run_idle(self, limit=5000):
         n = 0
+        if self.loop.idle():        # nothing to run: still record that the loop is idle here
+            for pr in self.pools:
+                pr.ev("h", t="idle", idle=True, G=True)
+            return 0
         while n < limit and not self.loop.idle():
             self.step()
             n += 1
@@ -175,6 +183,11 @@ class World:
 
     def at_point(self, pr, point):
         """Called from harness-owned user code: perform the in-handle operations scheduled here."""
+        for a in self.armed:
+            pat, op, left = a
+            if left > 0 and op.get("p", 0) == pr.p and (pat == point or (pat.endswith("*") and point.startswith(pat[:-1]))):
+                a[2] -= 1
+                pr.do_op(op, point)
         while self.pos < len(self.cmds):
             cmd = self.cmds[self.pos]
             if cmd["c"] != "in" or cmd.get("pt") != point or cmd["op"].get("p", 0) != pr.p:
@@ -195,6 +208,7 @@ class PoolRun:
         self.cfg = cfg
         self.loop = world.loop
         self.reqs = {}          # r -> state dict
+        self.nreq = 0           # requests so far (accepted or rejected)
         self.tpls = [dict(PLAN_DEFAULT, **t) for t in cfg.get("reqs", [])]
         self.workers = {}       # id -> dict(gate=future|None, r, j)
         self.cbgates = {}       # (which, id) -> future
@@ -210,7 +224,7 @@ class PoolRun:
         self.ptasks = []
         self.nobj = {}
         self.last_al = None
-        self.last_G = None
+        self.last_G = []
         self.simple = cfg["cls"] == "SimpleTaskPool"
         if self.simple:
             plan = dict(PLAN_DEFAULT, **cfg.get("simple", {}))
@@ -282,12 +296,10 @@ class PoolRun:
             return None
         rec = {"e": _e}
         rec.update(f)
-        if rec.get("G") is not None:
-            G = self.groups_obs()
-            if G != self.last_G:
-                rec["G"] = self.last_G = G
-            else:
-                del rec["G"]
+        rec.pop("G", None)
+        G = self.groups_obs()       # group membership as reported by get_group_ids, whenever it changed
+        if G != self.last_G:
+            rec["G"] = self.last_G = G
         rec["o"] = self.obs()
         al = self.alive_ids()
         if al != self.last_al:
@@ -466,14 +478,15 @@ class PoolRun:
 
     # -- operations ------------------------------------------------------------------------------
     def gname_of(self, op):
+        """Group name meant by an operation: explicit "g", or the name returned to request "r"
+        (for a rejected / not yet issued request: its template's explicit name, else a name nobody has)."""
         if "g" in op:
             return op["g"]
         st = self.reqs.get(op.get("r"))
         if st and st.get("gname"):
             return st["gname"]
-        tpl = self.tpls[op["r"]] if 0 <= op.get("r", -1) < len(self.tpls) else None
-        if tpl and tpl.get("gname"):
-            return tpl["gname"]
+        if st and st.get("tpl") and st["tpl"].get("gname"):
+            return st["tpl"]["gname"]
         return "nosuch-%s" % op.get("r")
 
     def do_op(self, op, where):
@@ -549,23 +562,26 @@ class PoolRun:
         self.ev("op", **f)
 
     def op_spawn(self, op, f):
-        r = op["r"]
+        """op = {"o":"spawn","t":template index} (TaskPool) or {"o":"spawn","num":n} (SimpleTaskPool).
+        Every spawn operation is its own request r = 0, 1, 2, ... in the order the operations are performed."""
+        r = self.nreq
+        self.nreq += 1
         pool = self.pool
         if self.simple:
             num = op.get("num", 1)
-            f.update(r=r, kind="start", num=num, nc=1, named=False, gname="", fn="", notcoro=False,
+            f.update(r=r, t=-1, kind="start", num=num, nc=1, named=False, gname="", fn="", notcoro=False,
                      exp=[self.simple_exp], ret="",
                      ecb=self.splan["ecb"], ccb=self.splan["ccb"], bad=sorted(self.splan.get("bad", [])))
-            self.reqs.setdefault(r, {"gname": None})
+            self.reqs[r] = {"gname": None}
             ret = pool.start(num)
             f["ret"] = ret
             self.reqs[r]["gname"] = ret
             if ret not in self.names:
                 self.names.append(ret)
             return
-        tpl = self.tpls[r]
+        tpl = self.tpls[op["t"]]
         kind = tpl["kind"]
-        st = self.reqs.setdefault(r, {"calls": 0, "pulls": 0, "tpl": tpl, "gname": None})
+        st = self.reqs[r] = {"calls": 0, "pulls": 0, "tpl": tpl, "gname": None}
         if tpl.get("notcoro"):
             func = self.make_plain_func(r)
         else:
@@ -573,10 +589,9 @@ class PoolRun:
         ecb = self.make_cb("ecb", tpl["ecb"], r)
         ccb = self.make_cb("ccb", tpl["ccb"], r)
         gname = tpl.get("gname")
-        f.update(r=r, kind=kind, num=tpl["num"], nc=tpl.get("nc", 1), named=gname is not None,
-                 gname=gname or "", fn=func.__name__, notcoro=bool(tpl.get("notcoro")), ret="", ecb=tpl["ecb"], ccb=tpl["ccb"], bad=sorted(tpl.get("bad", [])))
-        if gname is not None and gname not in self.names:
-            self.names.append(gname)
+        f.update(r=r, t=op["t"], kind=kind, num=tpl["num"], nc=tpl.get("nc", 1), named=gname is not None,
+                 gname=gname or "", fn=func.__name__, notcoro=bool(tpl.get("notcoro")), ret="",
+                 ecb=tpl["ecb"], ccb=tpl["ccb"], bad=sorted(tpl.get("bad", [])))
         if kind == "apply":
             a, k = self.shape_args(tpl["shape"], r)
             f["exp"] = [repr((a, k))]
@@ -637,18 +652,18 @@ class PoolRun:
         if self.simple and self.splan["imm"]:
             self.ev("skip", what="probe")
             return
+        self.w.armed = []       # the probe itself must not be disturbed by operations armed earlier
         if self.pool.is_locked:
             self.do_op({"o": "unlock"}, "gap")
+        r = self.nreq
         if self.simple:
-            r = 900 + len([x for x in self.reqs if x >= 900])
-            self.do_op({"o": "spawn", "r": r, "num": k}, "gap")
             before = {t for t in self.workers}
+            self.do_op({"o": "spawn", "num": k}, "gap")
             self.w.run_idle()
             mine = [t for t in self.workers if t not in before]
         else:
-            r = len(self.tpls)
             self.tpls.append(dict(PLAN_DEFAULT, kind="apply", num=k, nc=1, gname=None, probe=True))
-            self.do_op({"o": "spawn", "r": r}, "gap")
+            self.do_op({"o": "spawn", "t": len(self.tpls) - 1}, "gap")
             self.w.run_idle()
             mine = [t for t, w in self.workers.items() if w["r"] == r]
         live = [t for t in mine if not self.workers[t]["done"]]
